@@ -346,7 +346,7 @@ func init() {
 	// ---- C11: refresh (sequential part) ----
 	plans["C11"] = func(thorough bool) []*Job {
 		var jobs []*Job
-		kinds := []string{"result-mismatch", "loader-calls", "refresh-deadline-mismatch", "deadline-mismatch", "refresh-channel", "phantom-value", "missing-entry", "wrong-cause", "unexpected-removal", "event-missing", "hook-mismatch"}
+		kinds := []string{"result-mismatch", "loader-calls", "refresh-deadline-mismatch", "deadline-mismatch", "refresh-channel", "phantom-value", "missing-entry", "wrong-cause", "unexpected-removal", "event-missing", "hook-mismatch", "inflight-left"}
 		for _, ref := range []string{"creating", "writing"} {
 			for _, exp := range []string{"", "writing"} {
 				for _, ex := range []string{"caller", "deferred"} {
@@ -361,6 +361,7 @@ func init() {
 							fmt.Sprintf("get %d", k), fmt.Sprintf("inv %d", k), fmt.Sprintf("sra %d 10", k))
 					}
 					a = append(a, "bulk 1,2 full", "bulk 1,2 partial", "bulk 1,2 err", "bulkrefresh 1,2 full", "bulkrefresh 1,2 partial", "bulkrefresh 1,2 err", "bulkrefresh 1,1 full",
+						"bulkrefresh 1,2 panic", "bulk 1,2 panic", "refresh 1 panic", "load 1 panic",
 						"adv 39", "adv 40", "adv 41", "adv 100")
 					if ex == "deferred" {
 						a = append(a, "runexec")
